@@ -59,7 +59,7 @@ type runResult struct {
 }
 
 // analyse runs the rules of a property on one configuration.
-func analyse(repo, arch string, p *Property, useCHA bool, onlyRule string) (res runResult) {
+func analyse(repo, arch string, p *Property, useCHA bool, onlyRule string, thorough bool) (res runResult) {
 	res.goarch = arch
 	if arch == "" {
 		res.goarch = "amd64"
@@ -74,6 +74,7 @@ func analyse(repo, arch string, p *Property, useCHA bool, onlyRule string) (res 
 		return
 	}
 	c.useCHA = useCHA
+	c.thorough = thorough
 	for _, pk := range c.Pkgs {
 		res.pkgs = append(res.pkgs, pk.PkgPath)
 	}
@@ -160,7 +161,7 @@ func run(repo, propID, tier, evPath, knownPath, only, replayDir, arch string, li
 	}
 	var results []runResult
 	for _, cf := range cfgs {
-		results = append(results, analyse(repo, cf.arch, p, cf.cha, onlyRule))
+		results = append(results, analyse(repo, cf.arch, p, cf.cha, onlyRule, tier == "thorough"))
 	}
 
 	// verdict
